@@ -183,7 +183,12 @@ var CurrentIndex int
 
 // Abort records a violation for the current case from any goroutine and exits.
 func Abort(code int, key, msg string, c interface{}) {
-	LogResult(CurrentIndex, Result{Verdict: Violated, Key: key, Msg: msg, Case: c})
+	AbortWith(Violated, code, key, msg, c)
+}
+
+// AbortWith is Abort with an explicit verdict.
+func AbortWith(verdict string, code int, key, msg string, c interface{}) {
+	LogResult(CurrentIndex, Result{Verdict: verdict, Key: key, Msg: msg, Case: c})
 	os.Exit(code)
 }
 
